@@ -64,6 +64,14 @@ func goSkeleton(e ast.Expr) string {
 			}
 			return "(call " + id.Name + " " + strings.Join(parts, " ") + ")"
 		}
+		if sel, ok := e.Fun.(*ast.SelectorExpr); ok {
+			// a method call: the receiver is the first argument of the emitted T__m
+			parts := []string{goSkeleton(sel.X)}
+			for _, a := range e.Args {
+				parts = append(parts, goSkeleton(a))
+			}
+			return "(mcall " + sel.Sel.Name + " " + strings.Join(parts, " ") + ")"
+		}
 	}
 	return fmt.Sprintf("(?%T)", e)
 }
@@ -91,9 +99,17 @@ func glSkeleton(e gl.Expr) string {
 	case gl.Load:
 		return glSkeleton(e.X)
 	case gl.App:
-		g, ok := e.Fn.(gl.Global)
+		// (f x) y is f x y
+		for {
+			inner, ok := gl.Strip(e.Fn).(gl.App)
+			if !ok {
+				break
+			}
+			e = gl.App{Fn: inner.Fn, Args: append(append([]gl.Expr{}, inner.Args...), e.Args...)}
+		}
+		g, ok := gl.Strip(e.Fn).(gl.Global)
 		if !ok {
-			return "(?app)"
+			return "(?app " + gl.Show(e.Fn) + ")"
 		}
 		arg := func(i int) string {
 			if i < len(e.Args) {
@@ -114,6 +130,13 @@ func glSkeleton(e gl.Expr) string {
 		var parts []string
 		for i := range e.Args {
 			parts = append(parts, arg(i))
+		}
+		if i := strings.Index(g.Name, "__to__"); i > 0 && len(e.Args) == 1 {
+			// the conversion of a struct to an interface wraps the argument it is applied to
+			return arg(0)
+		}
+		if i := strings.Index(g.Name, "__"); i > 0 && i+2 < len(g.Name) && !strings.Contains(g.Name, "__to__") {
+			return "(mcall " + g.Name[i+2:] + " " + strings.Join(parts, " ") + ")"
 		}
 		return "(call " + g.Name + " " + strings.Join(parts, " ") + ")"
 	}
